@@ -5,13 +5,13 @@
     through _int_constants; the oracle is C's semantics on mathematical integers, stated
     relationally, asserted wherever the C evaluation is defined (all sub-results fit long long,
     divisor != 0, shift count in [0,64), left operand of << non-negative).
-(2) literal text: CrossHair on the real _parse_constant with Constant.value a symbolic string of
+(2) literal text: the real _parse_constant by proxy with Constant.value a symbolic string (SymStr) of
     bounded length constrained to C's integer/character-constant grammar, against a reference
     evaluator.
 """
 import os, sys, itertools, json
 import z3
-from vf import common, llsym, pysym, hutil, xhair
+from vf import common, llsym, pysym, hutil
 
 LLMIN, LLMAX = -(1 << 63), (1 << 63) - 1
 ARITH = ['+', '-', '*', '/', '%']
